@@ -45,8 +45,24 @@ class DispatchingRequestHandler(BaseHTTPRequestHandler):
             return path_elements[0]
         return path_elements[1]
 
+    def _send_error_response(self, status: int, http_reason: str):
+        response_xml_string = b''
+        self.close_connection = True  # pylint: disable=attribute-defined-outside-init
+        self.send_response(status, http_reason)
+        self.send_header("Content-type", "text/plain; charset=utf-8")
+        self.send_header("Content-length", str(len(response_xml_string)))
+        self.end_headers()
+        self.wfile.write(response_xml_string)
+
     def do_POST(self):  # pylint: disable=invalid-name
-        request_bytes = self._read_request()
+        try:
+            request_bytes = self._read_request()
+            first_path_element = self.get_first_path_element()
+        except Exception as ex:
+            self.server.logger.error('could not read request {} (request from {}): {}',
+                                     self.path, self.client_address, ex)
+            self._send_error_response(400, 'Bad Request')
+            return
         if self.server.dispatcher is None:
             # close this connection
             self.close_connection = True  # pylint: disable=attribute-defined-outside-init
@@ -59,7 +75,7 @@ class DispatchingRequestHandler(BaseHTTPRequestHandler):
             self.wfile.write(response_xml_string)
             return
         try:
-            component = self.server.dispatcher.get_instance(self.get_first_path_element())
+            component = self.server.dispatcher.get_instance(first_path_element)
         except InvalidPathError as ex:
             self.server.logger.error('invalid path {} (request from {}): {}', self.path, self.client_address, ex.reason)
             http_reason = ex.reason
@@ -106,11 +122,19 @@ class DispatchingRequestHandler(BaseHTTPRequestHandler):
             self.send_response(404, response_xml_string)  # not found
             return
 
-        component = self.server.dispatcher.get_instance(self.get_first_path_element())
-
-        peer_name = self.connection.getpeername()
-        result = component.do_get(self.headers, self.path, peer_name)
-        http_status, http_reason, response_xml_string, content_type = result
+        try:
+            component = self.server.dispatcher.get_instance(self.get_first_path_element())
+            peer_name = self.connection.getpeername()
+            result = component.do_get(self.headers, self.path, peer_name)
+            http_status, http_reason, response_xml_string, content_type = result
+        except InvalidPathError as ex:
+            self.server.logger.error('invalid path {} (request from {}): {}', self.path, self.client_address, ex.reason)
+            self._send_error_response(ex.status, ex.reason)
+            return
+        except Exception as ex:
+            self.server.logger.error('exception (request from {}): {}', self.path, self.client_address, ex)
+            self._send_error_response(500, 'exception')
+            return
 
         self.send_response(http_status, http_reason)
         response_xml_string = self._compress_if_supported(response_xml_string)
